@@ -44,19 +44,13 @@ def parseAll (E : Ext) (ctx : ParseContext) (pick : List ImportedType → Option
     (parseAll E ctx pick fs).bind fun rest =>
       .ok (match r with | some d => d :: rest | none => rest)
 
-/-- the first crate, in the iteration order `order` of the `all_types` hash map, that is not
-`current` and defines `name` -/
+/-- the re-export fallback of `used_imports`: among the crates other than `current` that define
+`name`, the one with the smallest crate name (`.min_by_key(|(k, _)| *k)` over the `all_types` hash
+map, since the `fix:` commit "resolve a type name imported from several crates the same way in
+every run"; it was `.next()`, the first such crate in the map's iteration order).  `all` is the
+map in some iteration order. -/
 def firstOther (all : List (Str × List Str)) (current : Str) (name : Str) : Option Str :=
-  (all.find? fun (c, names) => c != current && names.contains name).map (·.1)
-
-/-- hash-order dependent inputs of a multi-file run (excluded from byte-exact comparison) -/
-def ambiguities (E : Ext) (lang : LangCfg) (targetOs : List Str) (files : List SourceFile) : List Str :=
-  let ctx : ParseContext := { ignoredTypes := ignoredTypes lang, multiFile := true, targetOs }
-  files.flatMap fun f =>
-    if !f.file.marker then [] else
-    match Visitor.visitFile E ctx f.crateName f.fileName f.path f.file with
-    | .ok d => Visitor.ambiguousImports d
-    | _ => []
+  (Pipeline.minByKey (all.filter fun (c, names) => c != current && names.contains name)).map (·.1)
 
 def run (E : Ext) (lang : LangCfg) (multiFile : Bool) (targetOs : List Str)
     (pick : List ImportedType → Option ImportedType) (files : List SourceFile) : Outcome RunResult :=
